@@ -1,5 +1,6 @@
 import Driver.Util
 import LiquidVerif.Model.Recur
+import LiquidVerif.Model.ParseLoops
 open Lean
 
 namespace Driver.C09
@@ -70,6 +71,49 @@ def handle (args : List Json) : Json :=
     | _, _, _, _, _ => jerr "bad-case"
   | _ => jerr "bad-args"
 
-def commands : List (String × (List Lean.Json → Lean.Json)) := [("recur", handle)]
+
+/-! ### parser loops -/
+namespace P
+open LiquidVerif.ParseLoops
+
+mutual
+partial def parseTok (j : Json) : Option Tok :=
+  match j with
+  | .str "content" => some .content
+  | .str "output" => some .output
+  | .str "comment" => some .comment
+  | .str "doc" => some .doc
+  | .arr a =>
+    match a.toList with
+    | [.str "tag", .str n] => some (.tag n)
+    | [.str "expr", inner] => (parseToks inner).map .expr
+    | _ => none
+  | _ => none
+partial def parseToks (j : Json) : Option (List Tok) := do
+  let xs ← asArr? j
+  xs.mapM parseTok
+end
+
+def errName : LiquidVerif.ParseLoops.Err → String
+  | .syntax => "LiquidSyntaxError"
+  | .nesting => "BlockNestingError"
+
+/-- `["parse", lax, limit, tokens]` → `{"out": "ok"|<error class>, "skeleton": […] (when ok), "pos": tokens consumed
+    from the template stream, "iters": loop iterations (ghost)}` -/
+def handle (args : List Json) : Json :=
+  match args with
+  | [lax, limit, toks] =>
+    match asBool? lax, asNat? limit, parseToks toks with
+    | some lax, some limit, some toks =>
+      let r := parseTemplate { lax := lax, limit := limit } toks
+      Json.mkObj [("out", jstr (match r.err with | none => "ok" | some e => errName e)),
+                  ("skeleton", match r.err with | none => jarr (r.out.map jstr) | some _ => Json.null),
+                  ("pos", jnat (toks.length - r.rest.length)), ("iters", jnat r.iters),
+                  ("weight", jnat (wl toks))]
+    | _, _, _ => jerr "bad-case"
+  | _ => jerr "bad-args"
+end P
+
+def commands : List (String × (List Lean.Json → Lean.Json)) := [("recur", handle), ("parse", P.handle)]
 
 end Driver.C09
